@@ -118,3 +118,205 @@ def run_opmatrix(case, drv) -> Outcome:
         o, m = leaf()
         apply(S + o, DS + torch.block_diag(*[m] * r), r, 'square matrix + operator')
     return Outcome(key=('opmatrix', prog, r, c, n, case['seed'] % 11), viol=viol, branches=[f'opmatrix:{prog}'], sample={'prog': prog, 'blocks': [r, c], 'n': n})
+
+
+# ------------------------------------------------------------------------------------------------------------------
+# random LinearOperatorMatrix *programs*, mirrored in the Lean model `M.MExpr` (driver op `opmatrix`): what is built, its
+# shape, what raises, and the value of forward / adjoint on integer data are compared exactly
+
+
+def _rand_entry(rng, n_leaves):
+    r = rng.random()
+    if r < 0.7:
+        return {'t': 'leaf', 'i': rng.randrange(n_leaves)}
+    if r < 0.8:
+        return {'t': 'ident'}
+    if r < 0.9:
+        return {'t': 'zero'}
+    return {'t': rng.choice(['comp', 'add']), 'a': {'t': 'leaf', 'i': rng.randrange(n_leaves)}, 'b': {'t': 'leaf', 'i': rng.randrange(n_leaves)}}
+
+
+def _rand_idx(rng, length):
+    k = rng.choice(['int', 'seq', 'all', 'slice', 'slice'])
+    if k == 'int':
+        return {'t': 'int', 'i': rng.randint(-length - 1, length)}
+    if k == 'seq':
+        return {'t': 'seq', 'l': [rng.randint(-length, length - 1) for _ in range(rng.randint(1, 3))] if length else [0]}
+    if k == 'all':
+        return {'t': 'all'}
+    out = {'t': 'slice'}
+    if rng.random() < 0.7:
+        out['start'] = rng.randint(0, length + 1)
+    if rng.random() < 0.7:
+        out['stop'] = rng.randint(0, length + 1)
+    return out
+
+
+def rand_mexpr(rng, depth, n, n_leaves, shape=None):
+    """a random program; shapes are mostly compatible, sometimes deliberately not (the model must reject what the class rejects)"""
+    from harness.props.c04 import rand_scal
+
+    r, c = shape or (rng.randint(1, 3), rng.randint(1, 3))
+    if depth == 0 or rng.random() < 0.25:
+        if rng.random() < 0.15 and r == c:
+            return {'t': 'fromDiag', 'ops': [_rand_entry(rng, n_leaves) for _ in range(r)]}
+        return {'t': 'lit', 'rows': [[_rand_entry(rng, n_leaves) for _ in range(c)] for _ in range(r)]}
+    bad = rng.random() < 0.1  # incompatible on purpose
+    t = rng.choice(['matmul', 'matmul', 'add', 'H', 'rmul', 'mul', 'rmulSeq', 'mulSeq', 'addOp', 'addT', 'matmulOp', 'getitem', 'vstack', 'hstack',
+                    'vstackOp', 'hstackOp', 'opVstack', 'opHstack'])
+    sub = lambda shp: rand_mexpr(rng, depth - 1, n, n_leaves, shp)  # noqa: E731
+    if t == 'matmul':
+        k = rng.randint(1, 3)
+        return {'t': t, 'a': sub((r, k)), 'b': sub((k + (1 if bad else 0), c))}
+    if t == 'add':
+        return {'t': t, 'a': sub((r, c)), 'b': sub((r + (1 if bad else 0), c))}
+    if t == 'H':
+        return {'t': t, 'a': sub((c, r))}
+    if t in ('rmul', 'mul'):
+        return {'t': t, 's': rand_scal(rng, n), 'a': sub((r, c))}
+    if t == 'rmulSeq':
+        return {'t': t, 'ss': [rand_scal(rng, n) for _ in range(r + (1 if bad else 0))], 'a': sub((r, c))}
+    if t == 'mulSeq':
+        return {'t': t, 'ss': [rand_scal(rng, n) for _ in range(c + (1 if bad else 0))], 'a': sub((r, c))}
+    if t == 'addOp':
+        return {'t': t, 'a': sub((r, r if not bad else r + 1)), 'o': _rand_entry(rng, n_leaves)}
+    if t == 'addT':
+        return {'t': t, 'a': sub((r, r)), 's': rand_scal(rng, n)}
+    if t == 'matmulOp':
+        return {'t': t, 'a': sub((r, c)), 'o': _rand_entry(rng, n_leaves)}
+    if t == 'getitem':
+        R, C = rng.randint(r, r + 1), rng.randint(c, c + 1)
+        return {'t': t, 'a': sub((R, C)), 'ri': _rand_idx(rng, R), 'ci': _rand_idx(rng, C)}
+    if t == 'vstack':
+        return {'t': t, 'a': sub((r, c)), 'b': sub((rng.randint(1, 2), c + (1 if bad else 0)))}
+    if t == 'hstack':
+        return {'t': t, 'a': sub((r, c)), 'b': sub((r + (1 if bad else 0), rng.randint(1, 2)))}
+    if t in ('vstackOp', 'opVstack'):
+        return {'t': t, 'a': sub((r, 1 if not bad else 2)), 'o': _rand_entry(rng, n_leaves)}
+    return {'t': t, 'a': sub((1 if not bad else 2, c)), 'o': _rand_entry(rng, n_leaves)}
+
+
+def _py_idx(ix):
+    if ix['t'] == 'int':
+        return ix['i']
+    if ix['t'] == 'seq':
+        return list(ix['l'])
+    if ix['t'] == 'all':
+        return slice(None)
+    return slice(ix.get('start'), ix.get('stop'))
+
+
+def build_mexpr(e, leaves, n):
+    from mrpro.operators import LinearOperatorMatrix
+
+    from harness.props.c04 import build_real, to_scalar
+
+    t = e['t']
+    B = lambda k: build_mexpr(e[k], leaves, n)  # noqa: E731
+    op = lambda k: build_real(e[k], leaves, n)  # noqa: E731
+    if t == 'lit':
+        return LinearOperatorMatrix([[build_real(x, leaves, n) for x in row] for row in e['rows']])
+    if t == 'fromDiag':
+        return LinearOperatorMatrix.from_diagonal(*[build_real(x, leaves, n) for x in e['ops']])
+    if t == 'matmul':
+        return B('a') @ B('b')
+    if t == 'matmulOp':
+        return B('a') @ op('o')
+    if t == 'add':
+        return B('a') + B('b')
+    if t == 'addOp':
+        return B('a') + op('o')
+    if t == 'addT':
+        return B('a') + to_scalar(e['s'], n)
+    if t == 'rmul':
+        return to_scalar(e['s'], n) * B('a')
+    if t == 'mul':
+        return B('a') * to_scalar(e['s'], n)
+    if t == 'rmulSeq':
+        return [to_scalar(s, n) for s in e['ss']] * B('a')
+    if t == 'mulSeq':
+        return B('a') * [to_scalar(s, n) for s in e['ss']]
+    if t == 'H':
+        return B('a').H
+    if t == 'getitem':
+        out = B('a')[_py_idx(e['ri']), _py_idx(e['ci'])]
+        if not isinstance(out, LinearOperatorMatrix):
+            raise ValueError('selection is a single operator')  # MExpr.getitem is the matrix-valued indexing
+        return out
+    if t == 'vstack':
+        return B('a') & B('b')
+    if t == 'hstack':
+        return B('a') | B('b')
+    if t == 'vstackOp':
+        return B('a') & op('o')
+    if t == 'opVstack':
+        return op('o') & B('a')
+    if t == 'hstackOp':
+        return B('a') | op('o')
+    if t == 'opHstack':
+        return op('o') | B('a')
+    raise KeyError(t)
+
+
+def fmt_m(e):
+    from harness.props.c04 import fmt
+
+    t = e['t']
+    if t == 'lit':
+        return '[' + '; '.join(' '.join(fmt(x) for x in row) for row in e['rows']) + ']'
+    if t == 'fromDiag':
+        return 'diag(' + ', '.join(fmt(x) for x in e['ops']) + ')'
+    if t in ('matmul', 'add', 'vstack', 'hstack'):
+        return f'({fmt_m(e["a"])} {dict(matmul="@", add="+", vstack="&", hstack="|")[t]} {fmt_m(e["b"])})'
+    if t == 'H':
+        return fmt_m(e['a']) + '.H'
+    if t == 'getitem':
+        return f'{fmt_m(e["a"])}[{e["ri"]}, {e["ci"]}]'
+    return f'{t}({fmt_m(e["a"])}, …)'
+
+
+def run_mprogram(case, drv) -> Outcome:
+    import mrpro
+
+    from harness.core.conv import strs_equal, tensor_strs
+    from harness.props.c04 import strip
+
+    rng = random.Random(case['seed'])
+    n = case['n']
+    e = case['e']
+    mats = [int_tensor(rng, (n, n), complex_=rng.random() < 0.5, lo=-2, hi=2).to(torch.complex128) for _ in range(3)]
+    leaves = [mrpro.operators.EinsumOp(m) for m in mats]
+    st, A = call(lambda: build_mexpr(e, leaves, n))
+    viol = None
+    corr = None
+    desc = fmt_m(e)
+    shape_model = drv.call({'op': 'opmatrix', 'n': n, 'leaves': [tensor_strs(m) for m in mats], 'e': strip(e), 'xs': [], 'adj': False})['shape']
+    if st != 'ok':
+        if shape_model is not None:
+            corr = f'program {desc}: the class raises {A}, the model builds a matrix of shape {shape_model}'
+        return Outcome(key=('mprog-raises', desc), nontrivial=False, corr=corr, branches=['mprog:rejected'], sample={'n': n, 'program': desc})
+    if shape_model is None or list(A.shape) != list(shape_model):
+        corr = f'program {desc}: the class builds shape {list(A.shape)}, the model {shape_model}'
+        return Outcome(key=('mprog', desc), corr=corr, branches=['mprog:shape'], sample={'n': n, 'program': desc})
+    r, c = A.shape
+    for adj in (False, True):
+        k = r if adj else c
+        xs = [int_tensor(rng, (n,), complex_=True, lo=-3, hi=3).to(torch.complex128) for _ in range(k)]
+        stv, ys = call(lambda: (A.adjoint(*xs) if adj else A(*xs)))
+        m = drv.call({'op': 'opmatrix', 'n': n, 'leaves': [tensor_strs(mm) for mm in mats], 'e': strip(e), 'xs': [tensor_strs(x) for x in xs], 'adj': adj})
+        which = 'adjoint' if adj else 'forward'
+        if stv != 'ok':
+            if m['status'] == 'ok':
+                corr = corr or f'program {desc} {which}: the class raises {ys}, the model returns a value'
+                # the program was built and has a block-matrix value on this input: raising is a failure of the property
+                viol = viol or {'signature': f'opmatrix:program:{which}:raises', 'what': f'operator-matrix program {desc} ({which}, blocks {n}x{n}) raises {ys}; '
+                                f'its block-matrix semantics gives {m["ys"][:2]}'}
+            continue
+        if m['status'] != 'ok':
+            corr = corr or f'program {desc} {which}: the model rejects the call, the class returns a value'
+            continue
+        got = [(y + torch.zeros(n, dtype=torch.complex128)) for y in ys]  # an all-ZeroOp row returns the scalar 0
+        if len(got) != len(m['ys']) or any(not strs_equal(tensor_strs(g), my) for g, my in zip(got, m['ys'])):
+            corr = corr or f'program {desc} {which}: class {[tensor_strs(g) for g in got][:2]} model {m["ys"][:2]}'
+            viol = viol or {'signature': f'opmatrix:program:{which}', 'what': f'operator-matrix program {desc} ({which}, blocks {n}x{n}) differs from its block-matrix semantics'}
+    return Outcome(key=('mprog', n, desc), corr=corr, viol=viol, branches=[f'mprog:root:{e["t"]}', f'mprog:shape:{r}x{c}'], sample={'n': n, 'program': desc})
